@@ -115,6 +115,42 @@ OPS = [
     ('left-right', r'\bleft\b(?=\(\)|_idx)', ['right']),
 ]
 
+# second operator set (MUTSWEEP_SET=2): identifier / field swaps, dropped conjuncts, off-by-one on expressions, iteration order, argument swaps
+OPS2 = [
+    ('field-left', r'(?<=\.)left\b(?!\()', ['right']),
+    ('field-right', r'(?<=\.)right\b(?!\()', ['left']),
+    ('anchor-width', r'\banchor\b(?!\s*[:(])', ['width']),
+    ('width-anchor', r'\bwidth\b(?!\s*[:(])', ['anchor']),
+    ('offset-count', r'\bface_connections_offset\b', ['face_count']),
+    ('count-offset', r'\bface_count\b', ['face_connections_offset']),
+    ('idx-right_idx', r'(?<![\w\.])right_idx\b', ['idx']),
+    ('volume-area', r'\bvolume\b(?!\s*[:(])', ['area']),
+    ('drop-conj-l', r'(?<=[\( ])([\w\.\[\]\(\)\*! <>=]+?) && ', ['']),
+    ('drop-disj-l', r'(?<=[\( ])([\w\.\[\]\(\)\*! <>=]+?) \|\| ', ['']),
+    ('plus1', r'(?<=\[)([a-z_][\w\.]*)(?=\])', None),
+    ('len-1', r'\.len\(\)(?! *[-+])', ['.len() - 1', '.len() + 1']),
+    ('iter-rev', r'\.iter\(\)(?=\s*(\.|$|\)|\{))', ['.iter().rev()']),
+    ('iter-skip1', r'\.iter\(\)(?=\s*(\.|$|\)|\{))', ['.iter().skip(1)']),
+    ('enumerate-off', r'\.enumerate\(\)', ['.enumerate().skip(1)']),
+    ('argswap', r'\(([a-z_][\w\.\[\]]*), ([a-z_][\w\.\[\]]*)(?=[,\)])', None),
+    ('deref-ref-min', r'\bmin_by\b|\bmax_by\b', None),
+    ('cur-next', r'\bcur\b', ['next']),
+    ('next-cur', r'(?<![\.\w])next\b(?!\()', ['cur']),
+    ('i-j', r'(?<![\w\.])i(?![\w\(])', ['j']),
+    ('j-k', r'(?<![\w\.])j(?![\w\(])', ['k']),
+    ('k-i', r'(?<![\w\.])k(?![\w\(])', ['i']),
+    ('a-b', r'(?<![\w\.&])a(?![\w\(])', ['b']),
+    ('b-c', r'(?<![\w\.&])b(?![\w\(])', ['c']),
+    ('v0-v1', r'\bv0\b', ['v1']),
+    ('v1-v2', r'\bv1\b', ['v2']),
+    ('gen-v0', r'(?<![\w\.])gen\b', ['v0']),
+    ('loc-centroid', r'(?<=\.)loc\b(?!\()', ['centroid']),
+    ('none-some', r'\bNone\b(?= *=>)', None),
+    ('copied-index', r'\bdual\[0\]', ['dual[1]']),
+]
+if os.environ.get('MUTSWEEP_SET') == '2':
+    OPS = OPS2
+
 
 def gen():
     os.makedirs(OUT, exist_ok=True)
@@ -142,6 +178,14 @@ def gen():
                             cands = [str(val + 1)] + ([str(val - 1)] if val > 0 else [])
                         elif name == 'some->none':
                             cands = ['None']
+                        elif name == 'plus1':
+                            cands = [m.group(1) + ' + 1']
+                        elif name == 'argswap':
+                            if m.group(1) == m.group(2):
+                                continue
+                            cands = ['(%s, %s' % (m.group(2), m.group(1))]
+                        else:
+                            continue
                         for c in cands:
                             muts.append((path, ln, name, m.start(), m.end(), c))
                     else:
